@@ -71,4 +71,16 @@ def getLineInfo (doc : List Char) (offset : Nat) : Nat × Nat × List Char :=
   let (ln, ls, rest) := gliGo doc 0 off 1 0 doc
   (ln, off - ls + 1, rest.takeWhile (· ≠ '\n'))
 
+/-- `format_error`: number of spaces before the caret and number of carets (`usize` saturating ops). -/
+def caretLine (doc : List Char) (start stop : Nat) : Nat × Nat :=
+  let (_, colNum, lineText) := getLineInfo doc start
+  let textLen := utf8Len lineText
+  let underline :=
+    if stop > start ∧ colNum > 0 then
+      let startOffset := start - (colNum - 1)
+      let endInLine := stop - startOffset
+      max ((min endInLine textLen) - (colNum - 1)) 1
+    else 1
+  (colNum - 1, underline)
+
 end Incan.Pos
